@@ -193,7 +193,12 @@ def rule_objects(repo: Repo) -> RuleResult:
                 continue
             r.site(L.site(f, c, "applied operator"))
             po = L.arg_of(c, op_init, "problem_objects")
-            if po is None or (isinstance(po, ast.Constant) and po.value is None):
+            try:
+                po_tr = p.trace(po) if po is not None else set()
+            except KeyError:
+                po_tr = set()
+            # an inlined helper whose own `problem_objects` parameter was left at its default None counts as "without"
+            if po is None or (isinstance(po, ast.Constant) and po.value is None) or (po_tr and all(x == ("const:None",) for x in po_tr)):
                 r.fail(Finding("C16.objects", f, "ctor:Operator-without-problem_objects",
                                f"{unparse(c, 70)} is applied but was built without problem_objects: universal (forall) effects of the member are skipped", node=c))
             else:
@@ -202,8 +207,64 @@ def rule_objects(repo: Repo) -> RuleResult:
     return r
 
 
+def _name_atoms(items):
+    """atoms of a regex (re._parser items) that can match a letter: yields (description, admits '-')"""
+    import re._constants as RC
+    for op, av in items:
+        opn = str(op)
+        if opn == "IN":
+            word = any(str(o) == "CATEGORY" and str(a) in ("CATEGORY_WORD", "CATEGORY_UNI_WORD") for o, a in av) or \
+                any(str(o) == "RANGE" and chr(a[0]).isalpha() for o, a in av)
+            neg = any(str(o) == "NEGATE" for o, a in av)
+            if word and not neg:
+                dash = any(str(o) == "LITERAL" and a == ord("-") for o, a in av) or any(str(o) == "RANGE" and a[0] <= ord("-") <= a[1] for o, a in av)
+                yield "character class", dash
+        elif opn == "CATEGORY" and str(av) in ("CATEGORY_WORD", "CATEGORY_UNI_WORD"):
+            yield "\\w", False
+        elif opn in ("MAX_REPEAT", "MIN_REPEAT", "POSSESSIVE_REPEAT"):
+            yield from _name_atoms(av[2])
+        elif opn == "SUBPATTERN":
+            yield from _name_atoms(av[3])
+        elif opn == "BRANCH":
+            for alt in av[1]:
+                yield from _name_atoms(alt)
+        elif opn in ("ASSERT", "ASSERT_NOT"):
+            yield from _name_atoms(av[1])
+        elif opn == "ATOMIC_GROUP":
+            yield from _name_atoms(av)
+
+
+def rule_regex(repo: Repo) -> RuleResult:
+    """the pattern that cuts a joint action line into its members must admit every PDDL name: letters, digits, '_' and '-' in the
+    action name AND in every argument"""
+    import re._parser as RP
+    r = RuleResult("C16.regex", "every name position of JOINT_ACTION_REGEX admits '-' (PDDL names such as robot-1, pos-1-2)",
+                   "a member whose arguments contain a hyphen is a member all the same: it is executed and listed")
+    m = repo.module("multi_agent.multi_agent_trajectory_exporter")
+    ok, pat = repo.const_value(m.name, "JOINT_ACTION_REGEX")
+    owner = (m.short, "JOINT_ACTION_REGEX", str(m.path))
+    r.site(f"{m.short}.JOINT_ACTION_REGEX")
+    if not ok or not isinstance(pat, str):
+        raise AnalysisError("JOINT_ACTION_REGEX: constant pattern not found")
+    try:
+        tree = RP.parse(pat)
+    except Exception as ex:
+        raise AnalysisError(f"JOINT_ACTION_REGEX does not parse: {ex}")
+    atoms = list(_name_atoms(list(tree)))
+    if not atoms:
+        raise AnalysisError("JOINT_ACTION_REGEX: no name-matching atom found")
+    bad = [d for d, dash in atoms if not dash]
+    if bad:
+        r.fail(Finding("C16.regex", owner, "name-without-hyphen", f"{pat!r}: {bad[0]} matches name characters but not '-': a member such as (move robot-1 pos-1-2) "
+                       f"is not recognised and silently left out of the joint action"))
+    else:
+        r.ok({"pattern": pat, "name_atoms": len(atoms)})
+    r.require_sites(1)
+    return r
+
+
 def rules(repo: Repo, tier: str) -> List[RuleResult]:
-    return [rule_guard(repo),
+    return [rule_guard(repo), rule_regex(repo),
             c04.rule_thread(repo, "C16.thread", "MultiAgentTrajectoryExporter.parse_plan", "create_multi_agent_triplet", init_fn="create_initial_state"),
             rule_export(repo, "C16.export", "MultiAgentTrajectoryExporter", "operators:"),
             rule_objects(repo)] + _member_rules(repo)
